@@ -228,3 +228,18 @@ End C10.
 Arguments mkPD {O}.
 Arguments nsv {O}. Arguments pdof {O}. Arguments ncons {O}. Arguments nel {O}.
 Arguments d2g {O}. Arguments dg {O}. Arguments dxdy {O}. Arguments moleA {O}. Arguments cons {O}. Arguments mu {O}.
+
+(* ---- Thermodynamics.py: the array form of getInterdiffusivity / getTracerDiffusivity ------------------- *)
+(* utils._process_xT_arrays: equal lengths are paired; a single composition (or temperature) is repeated for
+   every temperature (composition); anything else raises ValueError (None).  The getters then evaluate the
+   single-point routine on every pair: [single] stands for _interdiffusivitySingle / _tracerDiffusivitySingle
+   (local equilibrium + the algebra modelled above), whatever it computes. *)
+Definition process_xT {A B : Type} (xs : list A) (Ts : list B) : option (list (A * B)) :=
+  if Nat.eqb (length xs) (length Ts) then Some (combine xs Ts)
+  else match xs, Ts with
+       | [x], _ => Some (map (fun t => (x, t)) Ts)
+       | _, [t] => Some (map (fun x => (x, t)) xs)
+       | _, _ => None
+       end.
+Definition array_query {A B C : Type} (single : A -> B -> C) (xs : list A) (Ts : list B) : option (list C) :=
+  option_map (map (fun p => single (fst p) (snd p))) (process_xT xs Ts).
